@@ -177,6 +177,7 @@ func vestEvents(c vestCfg) []Ev {
 	if c.withInval {
 		other := "C"
 		evs = append(evs, mkSend(o0, p0, "3", other, true))
+		evs = append(evs, mkSend(o0, p0, "3", other, false))
 		evs = append(evs, mkSend(o0, p0, "3", o0, true))
 		evs = append(evs, mkSend(o0, "nopool", "3", "fresh", true))
 	}
